@@ -181,6 +181,37 @@ def _send_idless(conn, name: str) -> None:
 
 
 # ------------------------------------------------------------------ route
+def run_poison(case: dict) -> CaseResult:
+    """A device sends ONE frame of a declared id whose payload cannot be decoded (that session ends): the registry is
+    what api.proto declares afterwards as before -- for this and for every later connection of the process."""
+    res = CaseResult()
+    i = int(case["id"])
+    s = Session(noise=bool(case.get("noise")), keepalive=32.0, auto=set())
+
+    def then(sess: Session):
+        sess.dsess.transport.feed(sess.dsess.encode((i, bytes.fromhex(case.get("hex", "ffffffffffffffffffffff")))))
+
+    s.start(then)
+    s.env.loop.horizon = START + 60
+    try:
+        s.run()
+    except IterationCap as e:
+        s.close()
+        raise HarnessError(f"C13 poison: {e}") from e
+    closed = s.conn.connection_state.name == "CLOSED"
+    s.close()
+    res.violations += check_tables()
+    for j in sorted(text_ids()):
+        res.violations += check_id(j)
+    # ... and a later session still routes that id to its class
+    r2 = run_route({"kind": "route", "noise": False, "frames": [[i, {}], [26, {}]], "send": []})
+    res.violations += r2.violations
+    res.nontrivial = True
+    res.classes = ["undecodable_payload_then_registry", "session_closed_by_it" if closed else "payload_accepted"]
+    res.info = {"id": i, "closed": closed}
+    return res
+
+
 def run_route(case: dict) -> CaseResult:
     from aioesphomeapi import api_pb2
 
@@ -399,6 +430,8 @@ def run_case(case: dict) -> CaseResult:
         return CaseResult(violations=check_id(case["id"]), nontrivial=True, classes=["id"], info={"id": case["id"], "name": text_ids().get(case["id"])})
     if k == "route":
         return run_route(case)
+    if k == "poison":
+        return run_poison(case)
     return run_sweep(case)
 
 
@@ -457,8 +490,14 @@ def _sweep(draw, tier):
     }
 
 
+@st.composite
+def _poison(draw, tier):
+    ids_ = sorted(i for i, n in text_ids().items() if SRC[text()["messages"][n[0]]["source"]] != 2 and i not in (5, 7, 36))
+    return {"kind": "poison", "id": draw(st.sampled_from(ids_)), "noise": draw(st.booleans()), "hex": draw(st.sampled_from(["ffffffffffffffffffffff", "0a02fffe", "12", "0dff"]))}
+
+
 def strategy(tier):
-    return st.one_of(_route(tier), _sweep(tier), _sweep(tier))
+    return st.one_of(_route(tier), _sweep(tier), _sweep(tier), _poison(tier))
 
 
 def enumerated(tier):
@@ -473,6 +512,8 @@ def enumerated(tier):
     for lo in range(0, len(ids_), 16):
         yield {"kind": "route", "noise": (lo // 16) % 2 == 1, "frames": [[i, {}] for i in ids_[lo:lo + 16]], "send": [[i, {}] for i in cs[lo // 2: lo // 2 + 8]]}
     yield {"kind": "route", "noise": False, "frames": [[7, {}], [5, {}]], "send": []}
+    for i in (27, 26, 10, 35, 29):
+        yield {"kind": "poison", "id": i, "noise": i == 26}
     # reads that end inside the next frame (header only / into the payload), same-size and different-size neighbours
     for noise in (False, True):
         for mis in ([1], [2], [3], [4], [6], [4, 0, 6], [9, 9, 1]):
